@@ -191,31 +191,22 @@ def runSem (j : Json) : Json :=
         | none => false)
       let hold := jnatD j "hold" (2 * bp.ents.size + 10)
       let steps := jnatD j "steps" 12
-      let histJson : Json :=
-        if !stateful then Json.null
-        else if alwaysCells.isEmpty then
-          let (k, hm) := searchHistory core c.circ inputs obs ren seed steps hold
-          Json.mkObj [("steps", k), ("mismatches", Json.arr (hm.map HistMismatch.toJson).toArray)]
-        else
-          let readers := obs.filter (fun o => match (core.nodes[o.node]? : Option CNode) with
-            | some (CNode.memRead m _) => alwaysCells.contains m
-            | _ => false)
-          let results := readers.map (fun o =>
-            let cell := match (core.nodes[o.node]? : Option CNode) with | some (CNode.memRead m _) => m | _ => 0
-            let (l, trace) := iterateCheck core c.circ inputs cell o (inputs.map (·.lit)) (jnatD j "maxL" 12) (jnatD j "window" 40)
-            Json.mkObj [("name", o.name), ("cell", cell), ("latency", match l with | some v => toJson v | none => Json.null),
-              ("trace", Json.arr (trace.map (fun v => Json.num (JsonNumber.fromInt v))).toArray)])
-          Json.mkObj [("iterate", Json.arr results.toArray)]
       -- memory cells: pair each gated cell of the source with its two gates; the validator then works on the
       -- circuit cut at all gates (theorem Facto.gated_cell_end_to_end)
+      let memIds : List String := ((jgetD j "ir_final").getArr?.toOption.getD #[]).toList.filterMap (fun op =>
+        if jstrD op "kind" == "IRMemCreate" then some (jstrD op "memory_id") else none)
       let cellPairs : List (Nat × Nat × Nat × Sig × Arg × Arg) := (List.range core.mems.size).filterMap (fun m =>
         match core.mems[m]? with
         | some cell =>
           (match cell.writes, cell.ty with
            | [WriteRule.gated d en], some ty =>
-             (match gatePairs c.circ (ren ty) with
-              | (w, h) :: _ => some (m, w, h, ren ty, d, en)
-              | [] => none)
+             -- the k-th cell of the source is the k-th IRMemCreate; its gates are named after the memory id
+             (match (memIds[m]?).bind (fun id => (idxOfId ids (id ++ "_write_gate")).bind (fun w => (idxOfId ids (id ++ "_hold_gate")).map (fun h => (w, h)))) with
+              | some (w, h) => some (m, w, h, ren ty, d, en)
+              | none =>
+                match gatePairs c.circ (ren ty) with
+                | (w, h) :: _ => some (m, w, h, ren ty, d, en)
+                | [] => none)
            | _, _ => none)
         | none => none)
       -- always-written cells folded into one self-reading arithmetic combinator
@@ -245,6 +236,27 @@ def runSem (j : Json) : Json :=
               | _ => none)
            | _, _ => none)
         | none => none)
+      -- where the circuit keeps each recognised cell: at the first step of a history the content the power-on
+      -- transient left there is accepted as the cell's initial content (see searchHistory)
+      let cellProbe : List (Nat × List Nat × Sig) :=
+        cellPairs.map (fun (m, w, h, ty, _, _) => (m, [w, h], ty)) ++
+        loopCells.map (fun (m, e, ty, _) => (m, [e], ty)) ++
+        latchCells.map (fun (m, e, _, _, ty, _, _) => (m, [e], ty))
+      let histJson : Json :=
+        if !stateful then Json.null
+        else if alwaysCells.isEmpty then
+          let (k, hm) := searchHistory core c.circ inputs obs ren seed steps hold cellProbe
+          Json.mkObj [("steps", k), ("mismatches", Json.arr (hm.map HistMismatch.toJson).toArray)]
+        else
+          let readers := obs.filter (fun o => match (core.nodes[o.node]? : Option CNode) with
+            | some (CNode.memRead m _) => alwaysCells.contains m
+            | _ => false)
+          let results := readers.map (fun o =>
+            let cell := match (core.nodes[o.node]? : Option CNode) with | some (CNode.memRead m _) => m | _ => 0
+            let (l, trace) := iterateCheck core c.circ inputs cell o (inputs.map (·.lit)) (jnatD j "maxL" 12) (jnatD j "window" 40)
+            Json.mkObj [("name", o.name), ("cell", cell), ("latency", match l with | some v => toJson v | none => Json.null),
+              ("trace", Json.arr (trace.map (fun v => Json.num (JsonNumber.fromInt v))).toArray)])
+          Json.mkObj [("iterate", Json.arr results.toArray)]
       let cutL : List Nat := cellPairs.flatMap (fun (_, w, h, _, _, _) => [w, h]) ++ loopCells.map (fun (_, e, _, _) => e) ++
         latchCells.flatMap (fun (_, e, mu, _, _, _, _) => e :: mu.toList)
       -- a stateless circuit whose only cycles go through producers that cannot emit what the reader reads is
@@ -431,7 +443,17 @@ def runGeo (j : Json) : Json :=
   | .ok bp =>
     let protos := ((jgetD j "geometry").getArr?.toOption.getD #[]).map decodeProto
     let checkPower := ((jgetD j "check_power").getBool?.toOption).getD false
-    let g := geoCheck bp protos checkPower
+    -- pole grid before trimming (centres, tiles) in 1/1000 tile
+    let grid : List (Int × Int) := ((jgetD j "pretrim_poles").getArr?.toOption.getD #[]).toList.filterMap (fun p =>
+      match p.getArr?.toOption with
+      | some a =>
+        let f (x : Json) : Int := match x.getNum?.toOption with
+          | some n => (n.mantissa * 1000) / (10 ^ n.exponent : Nat)
+          | none => 0
+        some (f (a.getD 0 Json.null), f (a.getD 1 Json.null))
+      | none => none)
+    let gridSupply : Int := (jgetD j "grid_supply").getInt?.toOption.getD 0
+    let g := geoCheck bp protos checkPower grid gridSupply
     let num (i : Nat) : Json := toJson ((bp.ents.getD i default).number)
     let ents := Json.arr (bp.ents.map (fun e => Json.mkObj [("n", e.number), ("name", e.name), ("x2", Json.num (JsonNumber.fromInt e.x2)), ("y2", Json.num (JsonNumber.fromInt e.y2))]))
     Json.mkObj [("id", id), ("n_entities", bp.ents.size), ("n_wires", bp.wires.size),
@@ -441,7 +463,10 @@ def runGeo (j : Json) : Json :=
       ("unpowered", Json.arr (g.unpowered.map num).toArray),
       ("pole_components", g.poleComponents), ("n_poles", g.nPoles),
       ("connectable", Json.arr (g.connectable.map (fun (a, b) => Json.arr #[num a, num b])).toArray),
-      ("unpowered_inside", Json.arr (g.unpoweredInside.map num).toArray), ("entities", ents)]
+      ("unpowered_inside", Json.arr (g.unpoweredInside.map num).toArray),
+      ("unpowered_off_grid", Json.arr (g.unpoweredOffGrid.map num).toArray),
+      ("unpowered_grid_hole", Json.arr (g.unpoweredGridHole.map num).toArray),
+      ("grid_points", grid.length), ("entities", ents)]
 
 /-- source-level embedding of one program in another (C12: P in an interleaving of P and Q) -/
 def runEmbed (j : Json) : Json :=
